@@ -299,8 +299,8 @@ Section DMRG.
       apply in_gwords_cons in Hw. destruct Hw as (s & w' & -> & Hs1 & Hw').
       assert (C1 : chain_ok (d :: repeat d (length Ar)) (1 :: Dar :: DsAr) (X :: Ar)) by (apply chain_ok_cons; assumption).
       assert (C2 : chain_ok (d :: repeat d (length Ar)) (1 :: Dar :: DsAr) (Aq :: Ar)) by (apply chain_ok_cons; assumption).
-      rewrite !amp_cvec. rewrite (cvec_cons K d _ 1 Dar DsAr) by (try assumption; lia).
-      rewrite (cvec_cons K d _ 1 Dar DsAr) by (try assumption; lia).
+      rewrite !amp_cvec. rewrite (cvec_cons K d (repeat d (length Ar)) 1 Dar DsAr X Ar s w' 0 C1 Hs1 Hw' ltac:(lia)).
+      rewrite (cvec_cons K d (repeat d (length Ar)) 1 Dar DsAr Aq Ar s w' 0 C2 Hs1 Hw' ltac:(lia)).
       rewrite <- sumn_scal_l. apply sumn_ext; intros c Hc. rewrite Hent by (try assumption; lia). cbn [sumn]. unfold r. ring. }
     assert (HNs : NNi (X :: Ar) = kmul K (kmul K (kconj K r) r) (NNi (Aq :: Ar))).
     { unfold NN, dnorm2. rewrite <- suml_scal_l. apply suml_ext; intros w Hw. rewrite (Hamp w Hw), kconj_mul. ring. }
@@ -328,7 +328,7 @@ Section DMRG.
       unfold upd_BL, dmrg_qr_left, qr_left. cbv zeta. destruct (qr _ _ _ _) as [[Q C] qb]. cbn [s_tr]. intros (_ & _ & H). exact H. }
     destruct (opt_step se i e_in HZ HN He Hok1) as (HZ1 & HN1 & Hs1 & Hl1 & He1).
     destruct (lr_gauge _ i HZ1 HSi Hok) as (HZ2 & HN2 & HE2).
-    split; [exact HZ2|]. split; [rewrite HN2; exact HN1|]. split; [rewrite HE2; exact Hs1|]. split; assumption.
+    unfold PP. cbn [fst snd]. split; [exact HZ2|]. split; [rewrite HN2; exact HN1|]. split; [rewrite HE2; exact Hs1|]. split; assumption.
   Qed.
   Lemma rl_body e_in se i : Pre e_in i se -> 0 < i ->
     rtr_ok (s_tr (fst (dmrg1_rl qr keig Hs qd se i))) -> PP e_in (i - 1) (dmrg1_rl qr keig Hs qd se i).
@@ -339,7 +339,7 @@ Section DMRG.
       unfold upd_BR, dmrg_qr_right, qr_right. cbv zeta. destruct (qr _ _ _ _) as [[Q C] qb]. cbn [s_tr]. intros (_ & _ & H). exact H. }
     destruct (opt_step se i e_in HZ HN He Hok1) as (HZ1 & HN1 & Hs1 & Hl1 & He1).
     destruct (rl_gauge _ i HZ1 Hi Hok) as (HZ2 & HN2 & HE2).
-    split; [exact HZ2|]. split; [rewrite HN2; exact HN1|]. split; [rewrite HE2; exact Hs1|]. split; assumption.
+    unfold PP. cbn [fst snd]. split; [exact HZ2|]. split; [rewrite HN2; exact HN1|]. split; [rewrite HE2; exact Hs1|]. split; assumption.
   Qed.
 
   (* ---- one sweep (L >= 2) ---- *)
@@ -377,7 +377,7 @@ Section DMRG.
       - intros i s' Hi Hpp Hoki. apply (rl_body e_in s' i (PP_Pre _ _ _ Hpp) ltac:(lia) Hoki). }
     destruct H2 as (HZ2 & HN2 & Hs2 & Hl2 & He2).
     destruct (final_step (fst se2) HZ2 HN2 Hok) as (HZ3 & HN3 & HE3).
-    split; [exact HZ3|]. split; [exact HN3|]. split; [rewrite HE3; exact Hs2|]. split; assumption.
+    unfold PP. cbn [fst snd]. split; [exact HZ3|]. split; [exact HN3|]. split; [rewrite HE3; exact Hs2|]. split; assumption.
   Qed.
 
   (* ---- all sweeps ---- *)
